@@ -393,6 +393,7 @@ func (f *ontFam) Exec(r *hx.Run, op []string) string {
 		// several headers in ONE SyncBlockHeader call: hbatch <h>/<nonce>/<cfg>/<bks>/<sigs> [| ...]
 		p := &hscommon.SyncBlockHeaderParam{ChainID: ontChainID}
 		var heights []uint32
+		var prevHash ocommon.Uint256
 		for _, tok := range op[1:] {
 			if tok == "|" {
 				continue
@@ -410,10 +411,12 @@ func (f *ontFam) Exec(r *hx.Run, op []string) string {
 				return "bad-op"
 			}
 			hd := ontHeader(uint32(h64), nonce, payload)
+			hd.PrevBlockHash = prevHash // the headers of a batch are hash-linked
 			for _, i := range bks {
 				hd.Bookkeepers = append(hd.Bookkeepers, ontKeys[i].pub)
 			}
 			hash := hd.Hash()
+			prevHash = hash
 			hd.SigData = ontMakeSigs(specs, hash[:])
 			sink := ocommon.NewZeroCopySink(nil)
 			hd.Serialization(sink)
@@ -962,12 +965,14 @@ func (f *ontFam) genHdr(r *hx.Run) {
 					set1, _ := inForce(h1)
 					b1, s1, _ := signerShape(r, set1, 2)
 					ns := r.Rng.Perm(ontPool)[:1+r.Rng.Intn(10)]
-					h2 := h1 + 1 + uint32(r.Rng.Intn(5))
+					h2 := h1 + 1 + uint32(r.Rng.Intn(2))
 					b2, s2, _ := signerShape(r, ns, 2) // signed by the set installed by the first header of the batch
-					h3 := h2 + 1 + uint32(r.Rng.Intn(5))
+					h3 := h2 + 1 + uint32(r.Rng.Intn(2))
 					var b3 []int
 					var s3, kind string
-					switch r.Rng.Intn(3) {
+					switch r.Rng.Intn(4) {
+					case 3:
+						b3, s3, kind = nil, "-", "third-unsigned" // a hash-linked child without any signer
 					case 0:
 						b3, s3, _ = signerShape(r, ns, 2)
 						kind = "all-good"
